@@ -66,8 +66,9 @@ def _hilbert_transform_with_padding(y, padding: str = "exp", decay_factor: float
         y = y[n_samples : 2 * n_samples]
 
     # Padding can introduce a shift in the mean of the imaginary part
-    # of the Hilbert transform. Correct for this shift.
-    y = y - y.mean(axis=0)  # type: ignore
+    # of the Hilbert transform. Correct for this shift (the real part is the
+    # input data and keeps its mean).
+    y = y - 1j * y.imag.mean(axis=0)  # type: ignore
 
     return y
 
